@@ -164,25 +164,28 @@ func c13EmitTable(e *ext, name string, pairs [][2]string, def string) {
 	fmt.Fprintf(&e.out, "def %sDefault : List Nat := %s\n", name, c13Bytes(def))
 }
 
-// c13IndexKey: the key expression of the first `<something>[key]` whose map expression ends in mapSel.
-func c13IndexKey(e *ext, dir, recv, fn, mapSel string) string {
+// c13IndexKey: the value of the first constant-string key of an index expression `m[key]` in a function
+// (whatever the map expression is called).
+func c13IndexKey(e *ext, dir, recv, fn string) string {
 	fd := e.funcDecl(dir, recv, fn)
 	if fd == nil || fd.Body == nil {
 		e.fail("%s not found", fn)
 		return "?"
 	}
-	var key ast.Expr
+	key, found := "", false
 	ast.Inspect(fd.Body, func(n ast.Node) bool {
-		if ix, ok := n.(*ast.IndexExpr); ok && key == nil && c13Name(ix.X) == mapSel {
-			key = ix.Index
+		if ix, ok := n.(*ast.IndexExpr); ok && !found {
+			if s, ok := c13EvalStr(e, dir, ix.Index, 0); ok {
+				key, found = s, true
+			}
 		}
 		return true
 	})
-	if key == nil {
-		e.fail("%s: no %s[...] expression", fn, mapSel)
+	if !found {
+		e.fail("%s: no m[<constant string>] expression", fn)
 		return "?"
 	}
-	return e.c13Str(dir, key, fn+" key")
+	return key
 }
 
 func init() {
@@ -386,10 +389,10 @@ func init() {
 		fmt.Fprintf(&e.out, "def profileFieldOrder : List String := [%s]\n", strings.Join(fields, ", "))
 
 		// label / annotation keys, through the index expressions that read them
-		fmt.Fprintf(&e.out, "def labelQoS : List Nat := %s\n", c13Bytes(c13IndexKey(e, d, "", "GetQoSClassByAttrs", "labels")))
-		fmt.Fprintf(&e.out, "def labelPriorityClass : List Nat := %s\n", c13Bytes(c13IndexKey(e, d, "", "GetPodPriorityClassRaw", "Labels")))
-		fmt.Fprintf(&e.out, "def labelPriority : List Nat := %s\n", c13Bytes(c13IndexKey(e, vd, "", "validateImmutablePriority", "Labels")))
-		fmt.Fprintf(&e.out, "def annotationExtendedResourceSpec : List Nat := %s\n", c13Bytes(c13IndexKey(e, d, "", "GetExtendedResourceSpec", "annotations")))
-		fmt.Fprintf(&e.out, "def annotationSkipUpdateResource : List Nat := %s\n", c13Bytes(c13IndexKey(e, d, "", "ShouldSkipUpdateResource", "Annotations")))
+		fmt.Fprintf(&e.out, "def labelQoS : List Nat := %s\n", c13Bytes(c13IndexKey(e, d, "", "GetQoSClassByAttrs")))
+		fmt.Fprintf(&e.out, "def labelPriorityClass : List Nat := %s\n", c13Bytes(c13IndexKey(e, d, "", "GetPodPriorityClassRaw")))
+		fmt.Fprintf(&e.out, "def labelPriority : List Nat := %s\n", c13Bytes(c13IndexKey(e, vd, "", "validateImmutablePriority")))
+		fmt.Fprintf(&e.out, "def annotationExtendedResourceSpec : List Nat := %s\n", c13Bytes(c13IndexKey(e, d, "", "GetExtendedResourceSpec")))
+		fmt.Fprintf(&e.out, "def annotationSkipUpdateResource : List Nat := %s\n", c13Bytes(c13IndexKey(e, d, "", "ShouldSkipUpdateResource")))
 	}
 }
